@@ -12,6 +12,10 @@ From AV Require Import Base.Prelude Base.NatSet.
 From AV Require Model.Seq Model.L1D Proofs.SeqProofs Proofs.BookkeepingProofs.
 From AV Require Model.AvgNum Model.Avg Proofs.AvgProofs Proofs.BookkeepingAvg.
 From AV Require Model.Avg1D Model.Avg1DPend Proofs.BookkeepingAvg1D.
+From AV Require Model.GenericLearner Model.DataSaver Model.Balancing Proofs.DataSaverProofs Proofs.BalancingCoh.
+From AV Require Proofs.BookkeepingDataSaver Proofs.BookkeepingBalancing.
+From AV Require Model.Integrator Proofs.IntegratorProofs Proofs.BookkeepingIntegrator.
+From AV Require Model.Tri Model.LND Proofs.BookkeepingLND.
 Import BookkeepingProofs.
 
 Section C10_seq.
@@ -330,6 +334,313 @@ Theorem C10_avg1d_commit_hands_out_told_refuted :
     Avg1DPend.toldb (Avg1DPend.base (Avg1DPend.preach t c h)) k = true.
 Proof. exact BookkeepingAvg1D.a1d_commit_hands_out_told_pf. Qed.
 
+(* ---------------------------------------------------------------------- *)
+(* DataSaver over an ARBITRARY wrapped learner [L] and picker: data,
+   pending_points, npoints and both losses ARE the child's (forwarded by
+   __getattr__), so every C10 clause about them transfers from the child along
+   the same history with the picked values; the wrapper's own record,
+   extra_data, holds the LAST full result per told point -- which is finding
+   C10:F20 when the child keeps the first value. *)
+Section C10_ds.
+  Variable L : GenericLearner.Learner.
+  Variable R : Type.
+  Variable pick : R -> GenericLearner.value L.
+  Notation dst := (DataSaver.dst L R).
+  Notation op := (DataSaver.op L R).
+
+  Theorem C10_ds_observables_are_childs : forall (h : list op) (k : GenericLearner.state L),
+    let s := DataSaver.run pick (DataSaver.init L R k) h in
+    let kc := GenericLearner.lrun k (flat_map (DataSaver.pick_ops pick) h) in
+    DataSaver.getattr (GenericLearner.data L) s = GenericLearner.data L kc /\
+    DataSaver.getattr (GenericLearner.pending L) s = GenericLearner.pending L kc /\
+    DataSaver.getattr (GenericLearner.npoints L) s = GenericLearner.npoints L kc /\
+    (forall real, DataSaver.loss s real = GenericLearner.loss L kc real).
+  Proof. exact (@BookkeepingDataSaver.ds_observables_are_childs L R pick). Qed.
+
+  Theorem C10_ds_told_not_pending : forall (s : dst) x r,
+    ~ In x (GenericLearner.pending L (GenericLearner.tell L (DataSaver.child s) x (pick r))) ->
+    ~ In x (DataSaver.getattr (GenericLearner.pending L) (DataSaver.tell pick s x r)).
+  Proof. exact (@BookkeepingDataSaver.ds_told_not_pending L R pick). Qed.
+
+  Theorem C10_ds_asked_is_pending : forall (s : dst) n p,
+    (In p (fst (fst (GenericLearner.ask L (DataSaver.child s) n true))) ->
+     In p (GenericLearner.pending L (snd (GenericLearner.ask L (DataSaver.child s) n true)))) ->
+    In p (fst (fst (DataSaver.ask s n true))) ->
+    In p (DataSaver.getattr (GenericLearner.pending L) (snd (DataSaver.ask s n true))).
+  Proof. exact (@BookkeepingDataSaver.ds_asked_is_pending L R). Qed.
+
+  (* extra_data: exactly the told points (up to ==), each with the LAST full result *)
+  Theorem C10_ds_extra_exact : GenericLearner.PointLaws L -> forall (h : list op) k x,
+    DataSaver.alookup L x (DataSaver.extra (DataSaver.run pick (DataSaver.init L R k) h)) = DataSaverProofs.last_told x h /\
+    ((exists r, DataSaver.alookup L x (DataSaver.extra (DataSaver.run pick (DataSaver.init L R k) h)) = Some r) <->
+     (exists x' r, In (x', r) (DataSaver.tolds h) /\ GenericLearner.peqb L x' x = true)).
+  Proof. exact (@BookkeepingDataSaver.ds_extra_exact L R pick). Qed.
+
+  (* re-telling the same full result changes nothing when the child ignores the re-tell *)
+  Theorem C10_ds_retell_noop : forall (s : dst) x r,
+    GenericLearner.tell L (DataSaver.child s) x (pick r) = DataSaver.child s ->
+    DataSaver.alookup L x (DataSaver.extra s) = Some r ->
+    DataSaver.tell pick s x r = s.
+  Proof. exact (@BookkeepingDataSaver.ds_retell_noop L R pick). Qed.
+
+  (* ... but ANOTHER full result always replaces extra_data[x] (F20 when the child keeps the first value) *)
+  Theorem C10_ds_retell_overwrites_extra : GenericLearner.PointLaws L -> forall (s : dst) x r',
+    DataSaver.alookup L x (DataSaver.extra (DataSaver.tell pick s x r')) = Some r'.
+  Proof. exact (@BookkeepingDataSaver.ds_retell_overwrites_extra L R pick). Qed.
+
+  Theorem C10_ds_discard : forall (s : dst),
+    GenericLearner.pending L (GenericLearner.remove_unfinished L (DataSaver.child s)) = [] ->
+    GenericLearner.data L (GenericLearner.remove_unfinished L (DataSaver.child s)) = GenericLearner.data L (DataSaver.child s) ->
+    GenericLearner.loss L (GenericLearner.remove_unfinished L (DataSaver.child s)) false =
+      GenericLearner.loss L (GenericLearner.remove_unfinished L (DataSaver.child s)) true ->
+    DataSaver.getattr (GenericLearner.pending L) (DataSaver.remove_unfinished s) = [] /\
+    DataSaver.getattr (GenericLearner.data L) (DataSaver.remove_unfinished s) = DataSaver.getattr (GenericLearner.data L) s /\
+    DataSaver.extra (DataSaver.remove_unfinished s) = DataSaver.extra s /\
+    DataSaver.loss (DataSaver.remove_unfinished s) false = DataSaver.loss (DataSaver.remove_unfinished s) true.
+  Proof. exact (@BookkeepingDataSaver.ds_discard L R). Qed.
+End C10_ds.
+
+(* finding C10:F20 on the model: a child that keeps the first value (like
+   Learner1D, LearnerND, the averaging learners); tell(3, (7, 1)); tell(3, (9, 2)):
+   data[3] = 7 but extra_data[3] = (9, 2) *)
+Theorem C10_ds_extra_overwritten_refuted :
+  let KL := BookkeepingDataSaver.KeepFirst.learner in
+  let pick : nat * nat -> GenericLearner.value KL := fun r : nat * nat => fst r in
+  let s := DataSaver.run pick (DataSaver.init KL (nat * nat) BookkeepingDataSaver.KeepFirst.init)
+               [@DataSaver.Tell KL (nat * nat) 3 (7, 1); @DataSaver.Tell KL (nat * nat) 3 (9, 2)] in
+  DataSaver.getattr (GenericLearner.data KL) s = [(3, 7)] /\ DataSaver.alookup KL 3 (DataSaver.extra s) = Some (9, 2).
+Proof. exact BookkeepingDataSaver.ds_extra_overwritten_pf. Qed.
+
+(* ---------------------------------------------------------------------- *)
+(* BalancingLearner over arbitrary children: each clause of the wrapper from
+   the same clause of the children (routing and aggregation are C15's). *)
+Section C10_bal.
+  Variable L : GenericLearner.Learner.
+  Notation bst := (Balancing.bst L).
+
+  (* data is the labelled union; a tell for child i changes exactly child i, by its own tell *)
+  Theorem C10_bal_data_after_tell : forall (s : bst) i x y k j q v,
+    nth_error (Balancing.kids s) i = Some k ->
+    (In (j, (q, v)) (Balancing.bdata (Balancing.tell s i x y)) <->
+     (j = i /\ In (q, v) (GenericLearner.data L (GenericLearner.tell L k x y))) \/
+     (j <> i /\ In (j, (q, v)) (Balancing.bdata s))).
+  Proof. exact (@BookkeepingBalancing.bal_data_after_tell L). Qed.
+
+  Theorem C10_bal_told_not_pending : forall (s : bst) i x y k,
+    nth_error (Balancing.kids s) i = Some k ->
+    ~ In x (GenericLearner.pending L (GenericLearner.tell L k x y)) ->
+    ~ In (i, x) (Balancing.bpending (Balancing.tell s i x y)).
+  Proof. exact (@BookkeepingBalancing.bal_told_not_pending L). Qed.
+
+  Theorem C10_bal_npoints : forall s : bst,
+    Balancing.bnpoints s = list_sum (map (GenericLearner.npoints L) (Balancing.kids s)).
+  Proof. exact (@BookkeepingBalancing.bal_npoints L). Qed.
+
+  (* re-tell: if child i ignores it, children, data, pending points, npoints are unchanged *)
+  Theorem C10_bal_retell_noop : forall (s : bst) i x y k,
+    nth_error (Balancing.kids s) i = Some k -> GenericLearner.tell L k x y = k ->
+    Balancing.kids (Balancing.tell s i x y) = Balancing.kids s /\
+    Balancing.bdata (Balancing.tell s i x y) = Balancing.bdata s /\
+    Balancing.bpending (Balancing.tell s i x y) = Balancing.bpending s /\
+    Balancing.bnpoints (Balancing.tell s i x y) = Balancing.bnpoints s /\
+    Balancing.failed (Balancing.tell s i x y) = Balancing.failed s.
+  Proof. exact (@BookkeepingBalancing.bal_retell_noop L). Qed.
+
+  Theorem C10_bal_discard : forall rep (s : bst),
+    (forall k, In k (Balancing.kids s) -> GenericLearner.pending L (GenericLearner.remove_unfinished L k) = []) ->
+    Balancing.bpending (Balancing.bremove_unfinished rep s) = [] /\
+    Balancing.kids (Balancing.bremove_unfinished rep s) = map (GenericLearner.remove_unfinished L) (Balancing.kids s).
+  Proof. exact (@BookkeepingBalancing.bal_discard L). Qed.
+
+  Hypothesis child_ask_pure : forall k : GenericLearner.state L, snd (GenericLearner.ask L k 1 false) = k.
+
+  (* repaired model (the caches are dropped: finding C10:F2 / C15:F2 fixed) *)
+  Theorem C10_bal_discard_losses : forall s : bst,
+    (forall k, In k (Balancing.kids s) ->
+       GenericLearner.loss L (GenericLearner.remove_unfinished L k) false =
+       GenericLearner.loss L (GenericLearner.remove_unfinished L k) true) ->
+    snd (Balancing.bloss (Balancing.bremove_unfinished true s) false) =
+    snd (Balancing.bloss (Balancing.bremove_unfinished true s) true).
+  Proof. exact (fun s => BookkeepingBalancing.bal_discard_losses L s child_ask_pure). Qed.
+
+  Hypothesis child_commit : forall k : GenericLearner.state L,
+    fst (GenericLearner.ask L k 1 true) = fst (GenericLearner.ask L k 1 false) /\
+    snd (GenericLearner.ask L k 1 true) = match fst (fst (GenericLearner.ask L k 1 false)) with
+                                          | p :: _ => GenericLearner.tell_pending L k p
+                                          | [] => k
+                                          end.
+  Hypothesis child_tell_pending_idem : forall (k : GenericLearner.state L) p,
+    GenericLearner.tell_pending L (GenericLearner.tell_pending L k p) p = GenericLearner.tell_pending L k p.
+  Hypothesis child_marked_is_pending : forall (k : GenericLearner.state L) p,
+    In p (GenericLearner.pending L (GenericLearner.tell_pending L k p)).
+  Hypothesis child_pending_mono : forall (k : GenericLearner.state L) p q,
+    In q (GenericLearner.pending L k) -> In q (GenericLearner.pending L (GenericLearner.tell_pending L k p)).
+
+  (* every (i, p) returned by a committing ask is pending afterwards *)
+  Theorem C10_bal_asked_is_pending : forall rep (s : bst) n i p v,
+    Balancing.failed (fst (Balancing.bask rep s n true)) = false ->
+    In ((i, p), v) (snd (Balancing.bask rep s n true)) ->
+    In (i, p) (Balancing.bpending (fst (Balancing.bask rep s n true))).
+  Proof.
+    exact (BookkeepingBalancing.bal_asked_is_pending L child_ask_pure child_commit child_tell_pending_idem
+             child_marked_is_pending child_pending_mono).
+  Qed.
+End C10_bal.
+
+(* ---------------------------------------------------------------------- *)
+(* IntegratorLearner (Model/Integrator.v; data = its keys -- the values and
+   every numeric verdict are the environment's, so "each with the value it was
+   told" is not claimed: _partial).  Both variants of the code, every history,
+   every oracle answer.  remove_unfinished is `pass` in the code and not an
+   operation of the model (C10's "no-op for the integrator"). *)
+Section C10_int.
+  Variable X : Type.
+  Variable eqb : X -> X -> bool.
+  Variable points : X -> X -> nat -> list X.
+  Variable repaired : bool.
+  Variable dflt : X.
+  Hypothesis eqb_spec : forall x y, eqb x y = true <-> x = y.
+  Notation st := (Integrator.st X).
+  Notation op := (Integrator.op X).
+  Notation step := (Integrator.step eqb points repaired dflt).
+  Notation run := (Integrator.run eqb points repaired dflt).
+  Notation init := (Integrator.init eqb points repaired dflt).
+
+  (* ALL histories: the keys of data are duplicate-free (npoints = len(data) counts
+     distinct points), data and pending_points are disjoint *)
+  Theorem C10_int_inv : forall lo hi maxiv (h : list op),
+    NoDup (Integrator.data (run (init lo hi maxiv) h)) /\
+    (forall x, In x (Integrator.pending (run (init lo hi maxiv) h)) -> ~ In x (Integrator.data (run (init lo hi maxiv) h))) /\
+    Integrator.npoints (run (init lo hi maxiv) h) = length (Integrator.data (run (init lo hi maxiv) h)).
+  Proof.
+    intros lo hi maxiv h. destruct (BookkeepingIntegrator.BInv_holds X eqb points repaired dflt eqb_spec lo hi maxiv h) as [H1 H2].
+    split; [exact H1|]. split; [exact H2|reflexivity].
+  Qed.
+
+  (* data holds only told abscissae, and every accepted tell is and stays in data *)
+  Theorem C10_int_data_exact_partial : forall lo hi maxiv,
+    (forall (h : list op) y, In y (Integrator.data (run (init lo hi maxiv) h)) -> In y (BookkeepingIntegrator.tolds X h)) /\
+    (forall (h1 : list op) y vs (h2 : list op),
+       Integrator.halted (run (init lo hi maxiv) h1) = false ->
+       Integrator.xmap_mem eqb y (Integrator.xmap (run (init lo hi maxiv) h1)) = true ->
+       In y (Integrator.data (run (init lo hi maxiv) (h1 ++ Integrator.Tell y vs :: h2)))).
+  Proof.
+    intros lo hi maxiv. split.
+    - intros h y. apply (BookkeepingIntegrator.data_only_told X eqb points repaired dflt eqb_spec).
+    - intros h1 y vs h2. apply (BookkeepingIntegrator.int_told_in_data X eqb points repaired dflt eqb_spec).
+  Qed.
+
+  (* one tell, every non-halted state: either rejected (ValueError, nothing
+     changes) or the point is in data, not pending, and nothing else moved *)
+  Theorem C10_int_tell_bookkeeping : forall (s : st) x vs,
+    Integrator.halted s = false ->
+    (Integrator.xmap_mem eqb x (Integrator.xmap s) = false /\ step s (Integrator.Tell x vs) = (s, ([], Integrator.EValue))) \/
+    (Integrator.xmap_mem eqb x (Integrator.xmap s) = true /\ snd (snd (step s (Integrator.Tell x vs))) <> Integrator.EValue /\
+     In x (Integrator.data (fst (step s (Integrator.Tell x vs)))) /\
+     ~ In x (Integrator.pending (fst (step s (Integrator.Tell x vs)))) /\
+     (forall y, In y (Integrator.data (fst (step s (Integrator.Tell x vs)))) <-> y = x \/ In y (Integrator.data s)) /\
+     (forall y, In y (Integrator.pending (fst (step s (Integrator.Tell x vs)))) <-> In y (Integrator.pending s) /\ y <> x) /\
+     Integrator.stack (fst (step s (Integrator.Tell x vs))) = Integrator.stack s).
+  Proof. exact (BookkeepingIntegrator.int_tell_bookkeeping X eqb points repaired dflt eqb_spec). Qed.
+
+  (* ALL histories: a point handed out by ask is pending as long as it has not been told *)
+  Theorem C10_int_asked_is_pending : forall lo hi maxiv (h : list op) x,
+    In x (Integrator.handed (Integrator.outs eqb points repaired dflt (init lo hi maxiv) h)) ->
+    ~ In x (BookkeepingIntegrator.tolds X h) ->
+    In x (Integrator.pending (run (init lo hi maxiv) h)).
+  Proof. exact (BookkeepingIntegrator.int_asked_is_pending X eqb points repaired dflt eqb_spec). Qed.
+
+  (* re-tell of a known point: stack, pending_points, keys of data, x_mapping
+     unchanged (the interval tree is not claimed: the integrator re-processes) *)
+  Theorem C10_int_retell_points_partial : forall (s : st) x,
+    BookkeepingIntegrator.BInv s -> In x (Integrator.data s) ->
+    IntegratorProofs.pts X (fst (Integrator.tell eqb points repaired dflt s x)) = IntegratorProofs.pts X s.
+  Proof. exact (BookkeepingIntegrator.int_retell_points_partial X eqb points repaired dflt eqb_spec). Qed.
+End C10_int.
+
+(* ---------------------------------------------------------------------- *)
+(* LearnerND (Model/LND.v; data = the told points in order of first tell, the
+   values and every geometric / numeric decision are oracle answers, so "each
+   with the value it was told" is not claimed: _partial).  All variants of the
+   code.  LearnerND.loss ignores its [real] flag: there is one loss, and the
+   "two losses are equal after a discard" holds trivially. *)
+Section C10_lnd.
+  Variable L : Type.
+  Variables (lmul ldiv : L -> L -> L) (labs : L -> L) (linf : L).
+  Variable rnd : L -> Z.
+  Variable d : nat.
+  Variable corners : list nat.
+  Variables repaired fix12 : bool.
+  Notation lnd := (LND.lnd L).
+  Notation op := (LND.op L).
+  Notation step := (LND.step lmul ldiv labs linf rnd d corners repaired fix12).
+  Notation run := (LND.run lmul ldiv labs linf rnd d corners repaired fix12).
+  Notation lt0 := (fun _ _ : L => true).
+
+  (* ALL histories (also those with exceptions): data = the told points, each
+     once, in order of first tell; npoints = len(data) = number of distinct told points *)
+  Theorem C10_lnd_data_exact_partial : forall h : list op,
+    LND.l_data (run (LND.init_lnd L) h) = BookkeepingLND.told_list L h /\
+    NoDup (BookkeepingLND.told_list L h) /\
+    (forall p, In p (BookkeepingLND.told_list L h) <-> exists E, In (LND.Tell p E) h).
+  Proof. exact (BookkeepingLND.lnd_npoints L lmul ldiv labs linf rnd lt0 d corners repaired fix12). Qed.
+
+  (* post-condition of tell (every state): the told point is not pending, unless
+     it was known AND pending before (tell_pending of a known point: no guard in the code) *)
+  Theorem C10_lnd_told_not_pending : forall (s : lnd) p E,
+    (In p (LND.l_data s) -> ~ In p (LND.l_pend s)) -> ~ In p (LND.l_pend (fst (step s (LND.Tell p E)))).
+  Proof. exact (BookkeepingLND.lnd_told_not_pending L lmul ldiv labs linf rnd lt0 d corners repaired fix12). Qed.
+
+  (* data and pending are disjoint along every history in which tell_pending is
+     only used on points without a value, every ask answers, and no ask returns a
+     point that already has a value.  The last hypothesis excludes exactly
+     finding C10:F24 (C10_lnd_ask_hands_out_told_refuted). *)
+  Theorem C10_lnd_data_pending_disjoint : forall (h : list op) (s : lnd),
+    BookkeepingLND.Disj s -> BookkeepingLND.polite L lmul ldiv labs linf rnd d corners repaired fix12 s h ->
+    BookkeepingLND.Disj (run s h).
+  Proof. exact (BookkeepingLND.lnd_data_pending_disjoint L lmul ldiv labs linf rnd lt0 d corners repaired fix12). Qed.
+
+  (* one committing ask that answers: data untouched, the pending set grows by
+     exactly the returned points that are inside the bounds *)
+  Theorem C10_lnd_ask_bookkeeping : forall (s : lnd) n E s' pts,
+    step s (LND.Ask n E) = (s', LND.ORet pts) ->
+    LND.l_data s' = LND.l_data s /\
+    (forall x, In x (LND.l_pend s') <-> In x (LND.l_pend s) \/ (In x (map fst pts) /\ LND.e_inb E x = true)).
+  Proof. exact (BookkeepingLND.lnd_ask_dp L lmul ldiv labs linf rnd lt0 d corners repaired fix12). Qed.
+
+  (* ... and such a point stays pending along every continuation whose asks
+     answer and that neither tells it nor discards *)
+  Theorem C10_lnd_asked_is_pending : forall (s : lnd) n E s' pts (h : list op) x,
+    step s (LND.Ask n E) = (s', LND.ORet pts) -> In x (map fst pts) -> LND.e_inb E x = true ->
+    forallb (BookkeepingLND.keeps_p x) h = true ->
+    BookkeepingLND.answering L lmul ldiv labs linf rnd d corners repaired fix12 s' h ->
+    In x (LND.l_pend (run s' h)).
+  Proof. exact (BookkeepingLND.lnd_asked_is_pending L lmul ldiv labs linf rnd lt0 d corners repaired fix12). Qed.
+
+  (* telling a known point again changes nothing at all, whatever the value *)
+  Theorem C10_lnd_retell_noop : forall (s : lnd) p E,
+    In p (LND.l_data s) -> LND.tell lmul ldiv rnd d fix12 E s p = s.
+  Proof. exact (BookkeepingLND.lnd_retell_noop L lmul ldiv rnd d fix12). Qed.
+
+  Theorem C10_lnd_discard : forall s : lnd,
+    LND.l_pend (fst (step s LND.RemoveUnfinished)) = [] /\
+    LND.l_data (fst (step s LND.RemoveUnfinished)) = LND.l_data s /\
+    LND.l_subs (fst (step s LND.RemoveUnfinished)) = [].
+  Proof. exact (BookkeepingLND.lnd_discard L lmul ldiv labs linf rnd d corners repaired fix12). Qed.
+End C10_lnd.
+
+(* finding C10:F24 on the model: the three corners have values but no
+   triangulation exists yet; ask(1) draws the point 1, which has a value, and
+   marks it pending *)
+Theorem C10_lnd_ask_hands_out_told_refuted :
+  let h := [LND.Tell 0 (BookkeepingLND.ex_env [] []); LND.Tell 1 (BookkeepingLND.ex_env [] []);
+            LND.Tell 2 (BookkeepingLND.ex_env [] [])] in
+  let s := BookkeepingLND.ex_run (LND.init_lnd Z) h in
+  snd (BookkeepingLND.ex_step s (LND.Ask 1 (BookkeepingLND.ex_env [None] [1]))) = LND.ORet [(1, 1000%Z)] /\
+  LND.l_data (fst (BookkeepingLND.ex_step s (LND.Ask 1 (BookkeepingLND.ex_env [None] [1])))) = [0; 1; 2] /\
+  LND.l_pend (fst (BookkeepingLND.ex_step s (LND.Ask 1 (BookkeepingLND.ex_env [None] [1])))) = [1].
+Proof. exact BookkeepingLND.lnd_ask_hands_out_told_pf. Qed.
+
 (* non-vacuity (Seq): legal history with an unsolicited tell, a re-tell with a
    different value (overwrites), a discard *)
 Example C10_example_seq :
@@ -405,6 +716,40 @@ Example C10_example_avg1d :
   Avg1D.nsamples (Avg1DPend.base (Avg1DPend.preach t c h)) = 4.
 Proof. vm_compute. repeat split. Qed.
 
+(* non-vacuity (Balancing over two toy children, repaired model): asks under two
+   strategies, a tell, a discard *)
+Example C10_example_bal :
+  let TL := GenericLearner.Toy.learner in
+  let s := Balancing.run true (Balancing.init TL [GenericLearner.Toy.init; GenericLearner.Toy.init] Balancing.SImp)
+             [Balancing.Ask 3 true; @Balancing.Tell TL 0 0 7; Balancing.SetStrategy Balancing.SNpoints; Balancing.Ask 2 true] in
+  Balancing.failed s = false /\ Balancing.bdata s = [(0, (0, 7))] /\ Balancing.bnpoints s = 1 /\
+  Balancing.bpending (Balancing.bremove_unfinished true s) = [] /\
+  snd (Balancing.bloss (Balancing.bremove_unfinished true s) false) = snd (Balancing.bloss (Balancing.bremove_unfinished true s) true).
+Proof. vm_compute. repeat split. Qed.
+
+(* non-vacuity (Integrator over naturals): ask(3), then the value of a point
+   that is still queued arrives (accepted: it is an abscissa of the first
+   interval), then a foreign abscissa (rejected) *)
+Example C10_example_int :
+  let stp := Integrator.step Nat.eqb BookkeepingIntegrator.ex_pts true 0 in
+  let s0 := Integrator.init Nat.eqb BookkeepingIntegrator.ex_pts true 0 0 4096 1000 in
+  let s1 := fst (stp s0 (Integrator.Ask 3 [])) in
+  let s2 := fst (stp s1 (Integrator.Tell 2048 [])) in
+  Integrator.data s2 = [2048] /\ existsb (Nat.eqb 2048) (Integrator.pending s2) = false /\
+  existsb (Nat.eqb 256) (Integrator.pending s2) = true /\
+  stp s2 (Integrator.Tell 7 []) = (s2, ([], Integrator.EValue)).
+Proof. vm_compute. repeat split. Qed.
+
+(* non-vacuity (LearnerND model, triangular domain): ask the three corners, tell
+   two of them, mark an unsolicited point pending, re-tell, discard *)
+Example C10_example_lnd :
+  let E0 := BookkeepingLND.ex_env [] [] in
+  let h := [LND.Ask 3 E0; LND.Tell 0 E0; LND.Tell 2 E0; LND.TellPending 7 E0; LND.Tell 0 E0] in
+  let s := BookkeepingLND.ex_run (LND.init_lnd Z) h in
+  LND.l_data s = [0; 2] /\ LND.l_pend s = [1; 7] /\
+  LND.l_pend (fst (BookkeepingLND.ex_step s LND.RemoveUnfinished)) = [].
+Proof. vm_compute. repeat split. Qed.
+
 Print Assumptions C10_seq_data_exact.
 Print Assumptions C10_seq_data_determined.
 Print Assumptions C10_seq_told_not_pending.
@@ -440,3 +785,31 @@ Print Assumptions C10_avg1d_nsamples.
 Print Assumptions C10_avg1d_retell_noop.
 Print Assumptions C10_avg1d_discard_partial.
 Print Assumptions C10_avg1d_commit_hands_out_told_refuted.
+Print Assumptions C10_ds_observables_are_childs.
+Print Assumptions C10_ds_told_not_pending.
+Print Assumptions C10_ds_asked_is_pending.
+Print Assumptions C10_ds_extra_exact.
+Print Assumptions C10_ds_retell_noop.
+Print Assumptions C10_ds_retell_overwrites_extra.
+Print Assumptions C10_ds_discard.
+Print Assumptions C10_ds_extra_overwritten_refuted.
+Print Assumptions C10_bal_data_after_tell.
+Print Assumptions C10_bal_told_not_pending.
+Print Assumptions C10_bal_npoints.
+Print Assumptions C10_bal_retell_noop.
+Print Assumptions C10_bal_discard.
+Print Assumptions C10_bal_discard_losses.
+Print Assumptions C10_bal_asked_is_pending.
+Print Assumptions C10_int_inv.
+Print Assumptions C10_int_data_exact_partial.
+Print Assumptions C10_int_tell_bookkeeping.
+Print Assumptions C10_int_asked_is_pending.
+Print Assumptions C10_int_retell_points_partial.
+Print Assumptions C10_lnd_data_exact_partial.
+Print Assumptions C10_lnd_told_not_pending.
+Print Assumptions C10_lnd_data_pending_disjoint.
+Print Assumptions C10_lnd_ask_bookkeeping.
+Print Assumptions C10_lnd_asked_is_pending.
+Print Assumptions C10_lnd_retell_noop.
+Print Assumptions C10_lnd_discard.
+Print Assumptions C10_lnd_ask_hands_out_told_refuted.
